@@ -95,6 +95,8 @@ func init() {
 							// stone content rotates through the grid (the fine-earth bulk density is what the heat routine sees)
 							h.Stone = []int{0, 0, 30, 70, 0, 85}[k%6]
 							base := e1Base{Soil: "custom", Hor: []proj.Horizon{h}, GW: 99, InitW: iw, InitN: 10, ET: 3}
+							// the first simulated day rotates through the year (the start profile is built on that day)
+							base.Start = []string{"", "2001-10-05", "2001-01-15", "2001-12-31", "2001-07-20", "2001-11-20", "2004-02-29", "2001-10-02"}[k%8]
 							// a constant groundwater table from the soil file inside the profile on part of the grid
 							if n == 20 && k%3 == 0 {
 								base.GW = []int{6, 12, 2}[(k/3)%3]
